@@ -342,6 +342,14 @@ func (w *World) nf(v ssa.Value, depth int) string {
 		}
 		return fmt.Sprintf("%s#%d", w.nf(x.Tuple, depth+1), x.Index)
 	case *ssa.Phi:
+		if op, a, b, ok := minMaxPhi(x); ok {
+			// `if a < b { v = a }` written out: the smaller (larger) of the two, whichever path is taken
+			sa, sb := w.nf(a, depth+1), w.nf(b, depth+1)
+			if sa > sb {
+				sa, sb = sb, sa
+			}
+			return op + "(" + sa + "," + sb + ")"
+		}
 		if nfPath != nil {
 			if r := valueOnPath(x, nfPath); r != ssa.Value(x) {
 				return w.nf(r, depth+1)
@@ -547,4 +555,81 @@ func (w *World) pathDecides(path []ssa.Instruction, v ssa.Value) (bool, bool) {
 		}
 	})
 	return res, known
+}
+
+// minMaxPhi: phi is the result of `v := y; if x < y { v = x }` (or one of its mirror images): math.Min / math.Max of
+// the two values.
+func minMaxPhi(phi *ssa.Phi) (string, ssa.Value, ssa.Value, bool) {
+	if len(phi.Edges) != 2 {
+		return "", nil, nil, false
+	}
+	b := phi.Block()
+	if len(b.Preds) != 2 {
+		return "", nil, nil, false
+	}
+	for i := 0; i < 2; i++ {
+		then, head := b.Preds[i], b.Preds[1-i]
+		// head ends in the comparison and branches to `then` (which only assigns) or straight to the join
+		if len(then.Preds) != 1 || then.Preds[0] != head || len(then.Succs) != 1 {
+			continue
+		}
+		iff, ok := head.Instrs[len(head.Instrs)-1].(*ssa.If)
+		if !ok {
+			continue
+		}
+		cmp, ok := iff.Cond.(*ssa.BinOp)
+		if !ok {
+			continue
+		}
+		// then-branch must be pure (no calls, no stores)
+		pure := true
+		for _, in := range then.Instrs {
+			switch in.(type) {
+			case *ssa.Call, *ssa.Store, *ssa.Go, *ssa.Defer, *ssa.Send, *ssa.MapUpdate:
+				pure = false
+			}
+		}
+		if !pure {
+			continue
+		}
+		thenIsTrue := head.Succs[0] == then
+		if !thenIsTrue && head.Succs[1] != then {
+			continue
+		}
+		vt, vf := phi.Edges[i], phi.Edges[1-i]
+		x, y := cmp.X, cmp.Y
+		strip := func(v ssa.Value) ssa.Value {
+			for {
+				if c, ok := v.(*ssa.Convert); ok {
+					v = c.X
+					continue
+				}
+				return v
+			}
+		}
+		same := func(p, q ssa.Value) bool { return p == q || strip(p) == strip(q) }
+		less := false // does the comparison (on the edge into `then`) say x < y ?
+		switch cmp.Op {
+		case token.LSS, token.LEQ:
+			less = thenIsTrue
+		case token.GTR, token.GEQ:
+			less = !thenIsTrue
+		default:
+			continue
+		}
+		// on the then-edge: x<y (less) or x>y (!less); the result is vt there and vf otherwise
+		switch {
+		case same(vt, x) && same(vf, y):
+			if less {
+				return "math.Min", x, y, true
+			}
+			return "math.Max", x, y, true
+		case same(vt, y) && same(vf, x):
+			if less {
+				return "math.Max", x, y, true
+			}
+			return "math.Min", x, y, true
+		}
+	}
+	return "", nil, nil, false
 }
